@@ -5,6 +5,7 @@ import (
 	"strings"
 
 	"verifharness/gen"
+	"verifharness/q2lib"
 )
 
 // every prefix of query/parse.go, plus near misses
@@ -30,8 +31,35 @@ func fixedStrings() []string {
 	return out
 }
 
+var gvocab = &q2lib.Vocab{
+	Words:     []string{"foo", "Foo", "bar", "a.*b", "[a-z]+", "(foo|bar)", "x\\.y", "\\w+", "main", "(?i)x", "é"},
+	Spaced:    []string{"foo bar", "a \"b\"", "x  y", "(a) (b)"},
+	Files:     []string{"\\.go$", "main", "README"},
+	Repos:     []string{"github\\.com", "one$", "b/two"},
+	Branches:  []string{"main", "dev", "HEAD", ""},
+	Langs:     []string{"go", "python", "nosuch"},
+	MetaNames: []string{"license", "k"},
+	MetaVals:  []string{"Apache-.*", "v", "("},
+	Syms:      []string{"foo", "Fo+", "bar"},
+}
+
 func genString(r *gen.Rand) []byte {
-	switch r.Intn(10) {
+	switch r.Intn(14) {
+	case 10, 11, 12, 13: // a query of the documented grammar (all spellings), sometimes damaged
+		g := q2lib.GenQuery(r, gvocab, q2lib.GenOpts{MaxDepth: 3, TightGroup: true}, 0)
+		b := []byte(g.Render())
+		if r.Chance(1, 4) && len(b) > 0 {
+			i := r.Intn(len(b))
+			switch r.Intn(3) {
+			case 0:
+				b = append(b[:i], b[i+1:]...)
+			case 1:
+				b[i] = []byte("()\"\\- :")[r.Intn(7)]
+			default:
+				b = b[:i]
+			}
+		}
+		return b
 	case 0, 1: // raw byte soup over a weighted alphabet
 		n := r.Range(0, 24)
 		alpha := []byte("ab or()\"\\-:. \t\n*[]|f:r:c:\xff\xc3\xa9(-")
